@@ -86,5 +86,140 @@ def run(ctx):
             t = body["blocks"][b]["t"]
             exits_ok = exits_ok and t[0] == "switch"
     ctx.check(exits_ok and len(loops) == 1, "C15.traversal", "C15.traversal:no-break", w.where(fc), bad_msg="the children loop can be left other than by exhaustion")
+    # ---- depth monotonicity ------------------------------------------------------------------------------------------
+    ctx.rule("C15.depth-monotone", "node_action reads `depth` only in a lower-bound test (depth >= / > limit) whose true outcome is NodeAction::Remove: "
+                                   "clean_node hoists the children of ignored elements, so a second pass sees every surviving node at a depth <= the first "
+                                   "pass's; a verdict that is not monotone in depth (e.g. `depth == 0`) makes the second pass differ from the first")
+    fna = w.fn(CL + IMPL + "node_action")
+    uses = depth_uses(w, fna, {3}, set())
+    ctx.floor("reads of depth in node_action", len(uses), 1)
+    for i, (kind, where_fn, line, detail) in enumerate(uses):
+        ctx.check(kind == "lower-bound-removes", "C15.depth-monotone", f"C15.depth-monotone:{kind}:{detail}", w.where(where_fn, line),
+                  ok_msg="depth >= limit => Remove",
+                  bad_msg=f"`depth` is used in {detail} ({kind}): the verdict is not a lower-bound test leading to Remove, so a node kept at depth d can be "
+                          f"treated differently once hoisting moved it to a smaller depth (sanitize is then not idempotent)")
     ctx.assumptions += ["idempotence itself (equality of serialized documents) is not decided; these are necessary conditions only"]
     ctx.samples += [{"replacement": "font -> span, color -> data-mx-color", "closure": "span allows data-mx-color; span is not deprecated"}]
+
+
+def _root(pl):
+    return pl if isinstance(pl, int) else pl["l"]
+
+
+def _only_deref(pl):
+    return isinstance(pl, int) or all(p == "*" for p in pl["p"])
+
+
+def _removes(body, bb):
+    return any(st[0] == "=" and st[1] == 0 and st[2][0] == "agg" and st[2][1].get("variant") == "Remove" for st in body["blocks"][bb]["s"])
+
+
+def depth_uses(w, fn, D0, upvar_fields):
+    """Classify every read of the depth value in `fn` (D0: locals holding it; upvar_fields: closure-environment field names holding a reference to it).
+    Returns [(kind, fn, line, detail)], kind == "lower-bound-removes" for the accepted shape."""
+    body = fn["body"]
+    Dv, Rf = set(D0), set()       # locals holding the value / a reference to it
+    out = []
+    for _ in range(3):
+        for b in body["blocks"]:
+            for st in b["s"]:
+                if st[0] != "=":
+                    continue
+                dst, rv = st[1], st[2]
+                if not isinstance(dst, int):
+                    continue
+                if rv[0] == "use" and rv[1].get("k") in ("copy", "move"):
+                    pl = rv[1]["pl"]
+                    if isinstance(pl, dict) and pl["l"] == 1 and any(isinstance(q, list) and q[0] == "f" and q[2] in upvar_fields for q in pl["p"]):
+                        (Dv if any(q == "*" for q in pl["p"]) else Rf).add(dst)
+                    elif _root(pl) in Dv and _only_deref(pl):
+                        Dv.add(dst)
+                    elif _root(pl) in Rf and not isinstance(pl, int) and _only_deref(pl):
+                        Dv.add(dst)
+                    elif _root(pl) in Rf and isinstance(pl, int):
+                        Rf.add(dst)
+                elif rv[0] == "ref" and _root(rv[2]) in Dv and _only_deref(rv[2]):
+                    Rf.add(dst)
+    consumed = set()
+    for bi, b in enumerate(body["blocks"]):
+        for st in b["s"]:
+            if st[0] != "=":
+                continue
+            dst, rv, line = st[1], st[2], st[3] if len(st) > 3 else None
+            if rv[0] == "bin":
+                a, c = rv[2], rv[3]
+                la = a.get("k") in ("copy", "move") and _root(a["pl"]) in Dv
+                lc = c.get("k") in ("copy", "move") and _root(c["pl"]) in Dv
+                if la or lc:
+                    consumed |= {(_root(x["pl"])) for x in (a, c) if x.get("k") in ("copy", "move")}
+                    op = rv[1]
+                    big_true = (la and op in ("Ge", "Gt")) or (lc and op in ("Le", "Lt"))
+                    big_false = (la and op in ("Lt", "Le")) or (lc and op in ("Gt", "Ge"))
+                    if not (big_true or big_false):
+                        out.append(("non-order-test", fn, line, f"{op}"))
+                        continue
+                    out.append(_follow(w, fn, body, bi, dst, big_true, line))
+            elif rv[0] == "agg" and rv[1].get("k") == "closure":
+                ops = rv[2]
+                clo = w.lookup(rv[1]["def"])
+                names = (clo or {}).get("upvars") or []
+                fields = {names[i] for i, o in enumerate(ops) if o.get("k") in ("copy", "move") and _root(o["pl"]) in (Rf | Dv) and i < len(names)}
+                if fields and clo is not None:
+                    inner = depth_uses(w, clo, set(), fields)
+                    for kind, f2, line2, detail in inner:
+                        if kind == "closure-result":
+                            out.append(_follow_closure(w, fn, body, bi, dst, detail == "big-true", line))
+                        else:
+                            out.append((kind, f2, line2, detail))
+                    consumed |= {_root(o["pl"]) for o in ops if o.get("k") in ("copy", "move")}
+    # any other appearance of the value (call argument, arithmetic, cast, ...) is not understood
+    import json as _json
+    for bi, b in enumerate(body["blocks"]):
+        t = b["t"]
+        if t[0] == "call":
+            for o in t[1]["args"]:
+                if o.get("k") in ("copy", "move") and _root(o["pl"]) in (Dv | Rf) and _root(o["pl"]) not in consumed:
+                    out.append(("passed-to-call", fn, t[1].get("line"), M.callee_name(t[1]).rsplit("::", 1)[-1]))
+    return out
+
+
+def _follow(w, fn, body, bi, res, big_true, line):
+    """The comparison result `res` (computed in block bi): returned from a closure, or switched on."""
+    t = body["blocks"][bi]["t"]
+    if res == 0 and t[0] == "ret":
+        return ("closure-result", fn, line, "big-true" if big_true else "big-false")
+    if t[0] == "switch" and t[1].get("k") in ("copy", "move") and _root(t[1]["pl"]) == res:
+        false_bb = [tb for v, tb in t[2] if v == 0]
+        true_bb = t[3]
+        target = true_bb if big_true else (false_bb[0] if false_bb else None)
+        if target is not None and _removes(body, target):
+            return ("lower-bound-removes", fn, line, "direct")
+        return ("big-depth-does-not-remove", fn, line, "direct")
+    return ("unrecognised-result-flow", fn, line, "direct")
+
+
+def _follow_closure(w, fn, body, bi, clo_local, big_true, line):
+    """The closure (comparison inside) is passed to Option::is_some_and / is_none_or; its result is switched on."""
+    b = body["blocks"][bi]
+    t = b["t"]
+    if t[0] != "call" or not any(o.get("k") in ("copy", "move") and _root(o["pl"]) == clo_local for o in t[1]["args"]):
+        return ("unrecognised-result-flow", fn, line, "closure")
+    name = M.callee_name(t[1]).rsplit("::", 1)[-1]
+    if name not in ("is_some_and", "is_none_or"):
+        return ("unrecognised-result-flow", fn, line, "closure:" + name)
+    dest = t[1]["dest"] if isinstance(t[1]["dest"], int) else _root(t[1]["dest"])
+    nb = body["blocks"][t[1]["target"]]
+    t2 = nb["t"]
+    if t2[0] == "switch" and _root(t2[1]["pl"]) == dest:
+        false_bb = [tb for v, tb in t2[2] if v == 0]
+        # is_some_and(big-true closure): true => depth large; is_none_or(big-false closure): false => depth large
+        if name == "is_some_and" and big_true:
+            target = t2[3]
+        elif name == "is_none_or" and not big_true:
+            target = false_bb[0] if false_bb else None
+        else:
+            return ("unrecognised-polarity", fn, line, f"closure:{name}")
+        if target is not None and _removes(body, target):
+            return ("lower-bound-removes", fn, line, f"{name}")
+        return ("big-depth-does-not-remove", fn, line, f"{name}")
+    return ("unrecognised-result-flow", fn, line, "closure")
